@@ -19,6 +19,19 @@ def load_jsonl(path):
     return out
 
 
+def load_known():
+    """known_findings.txt: `known: {json}` lines suppress exactly their key; `fixed:` lines suppress nothing"""
+    out = []
+    p = os.path.join(VERIF, "known_findings.txt")
+    if os.path.exists(p):
+        with open(p) as fh:
+            for ln in fh:
+                ln = ln.strip()
+                if ln.startswith("known:"):
+                    out.append(json.loads(ln[len("known:"):].strip()))
+    return out
+
+
 class Ledger:
     """audited exceptions of one rule: key -> (count, reason). Keys never contain line numbers."""
 
@@ -64,7 +77,7 @@ class Run:
         self.ledgers = {}
         self.explanation = ""
         self.not_decided = ""
-        self.known = [e for e in load_jsonl(os.path.join(VERIF, "known_findings.jsonl")) if e.get("status", "known") == "known"]
+        self.known = load_known()
         self.known_used = Counter()
         self.rule_text = {}
         self.config = None
